@@ -192,6 +192,8 @@ def main():
         write_stream(1, beh.get("stdout"))
     if beh.get("stderr") is not None:
         write_stream(2, beh.get("stderr"))
+    if beh.get("log_written"):
+        log({"ev": "written", "test": name, "attempt": attempt})
 
     state["end"] = time.monotonic() + beh.get("sleep", 0)
     while True:
